@@ -141,3 +141,33 @@ func VerifC06_BlueGreenCloneSetInitializeGuard() {
 	verifrt.Assert(verifrt.Implies(err == nil, guardWritten), "C06.bgcloneset.initialize.successMeansGuarded")
 	verifrt.Cover("C06.bgcloneset.initialize.done")
 }
+
+// VerifC05_BlueGreenCloneSetInitializeKeepsTheSavedSettings: the CloneSet twin of the Deployment obligation — a second
+// Initialize on a CloneSet this release has already claimed (live spec: the release's maxSurge / maxUnavailable /
+// minReadySeconds) never replaces the saved original settings with those values.
+func VerifC05_BlueGreenCloneSetInitializeKeepsTheSavedSettings() {
+	cs := c05CloneSet()
+	userMaxUnavailable := intstr.FromInt(verifrt.IntRange("user.maxUnavailable", 0, 1000))
+	userMaxSurge := intstr.FromInt(verifrt.IntRange("user.maxSurge", 0, 1000))
+	setting := control.OriginalDeploymentStrategy{MaxUnavailable: &userMaxUnavailable, MaxSurge: &userMaxSurge, MinReadySeconds: int32(verifrt.IntRange("user.minReadySeconds", 0, 3600))}
+	saved := util.DumpJSON(&setting)
+	release := &v1beta1.BatchRelease{TypeMeta: metav1.TypeMeta{APIVersion: "rollouts.kruise.io/v1beta1", Kind: "BatchRelease"},
+		ObjectMeta: metav1.ObjectMeta{Namespace: "ns", Name: "br", UID: "uid-1"}}
+	cs.Annotations = map[string]string{
+		util.BatchReleaseControlAnnotation:           util.DumpJSON(metav1.NewControllerRef(release, release.GetObjectKind().GroupVersionKind())),
+		v1beta1.OriginalDeploymentStrategyAnnotation: saved,
+	}
+	cs.Spec.MinReadySeconds = v1beta1.MaxReadySeconds
+	_, _, version, h := c05Setup(true)
+	cli := &symclient.Client{ListFn: c05ListHPA(version, h)}
+	rc := &realController{client: cli, key: types.NamespacedName{Namespace: "ns", Name: "w"}, object: cs}
+	rc.WorkloadInfo = util.ParseWorkload(cs)
+	err := rc.Initialize(release)
+	verifrt.Assert(err == nil, "C05.bgcloneset.reinitialize.noError")
+	for _, w := range cli.Writes("patch", "CloneSet") {
+		if v, has := verifrt.JSONGet(w.Body, "metadata", "annotations", v1beta1.OriginalDeploymentStrategyAnnotation); has {
+			verifrt.Assert(v == saved, "C05.bgcloneset.reinitialize.savedSettingsStayTheUsers")
+		}
+	}
+	verifrt.Cover("C05.bgcloneset.reinitialize.done")
+}
